@@ -6,7 +6,8 @@ package main
 // use-after-close and up to 32 simultaneously open handles are run interactively against
 // both server kinds (allocator on/off) inside child processes; the connection is ended
 // after a chosen request (EOF after its reply, EOF without waiting for the reply, EOF or
-// a transport error in the middle of the following packet, transport error).  Oracles
+// a transport error in the middle of the following packet, transport error, or a well-framed packet
+// with an undecodable body as the last thing received — srvsession_bad.go).  Oracles
 // (srvsession_exec.go, ssRunC11 / ssTrack): handle strings pairwise distinct; a request
 // naming a never-issued or closed handle gets a failure STATUS and leaves tree, fd table,
 // handler log and object counters unchanged; one fd / one open handler object per live
@@ -190,7 +191,7 @@ const c11ThoroughShare = 44
 func checkC11(c *lib.Ctx) {
 	r := c.R
 	thorough := c.Tier == "thorough"
-	r.Rule = "sessions: INIT + PRNG mix of OPEN (r / w+creat / rw, existing and missing files, handler errors), OPENDIR (ok, missing, not a directory), READ/WRITE/FSTAT/FSETSTAT/READDIR on live handles, CLOSE, repeated CLOSE, CLOSE and other requests on never-issued handles (\"999\", \"\", \"abc\", …), use-after-close, path requests; flavours: small, 32 handles opened first, all closed at the end or left open, \"read-only\" (every modifying request kind and OPEN with every combination of write / create / truncate / append / excl / read flags on existing and new names, the handles used and partly closed) and \"worn handle\" (per handle kind r/w/rw/dir: 32 sequential uses so that every pool worker has served it, 16 pipelined, CLOSE, then 16 sequential + 16 pipelined uses of the closed handle, second CLOSE, one more use, 4 pipelined CLOSEs); request-server flavours where 25 % (PRNG) or 100 % of the reader/writer/rw/lister objects fail their first Close; against os-backed Server (absolute paths / working directory) and RequestServer with counting handlers, allocator on and off (these eight configurations meet every session); option dimensions — os-backed: ReadOnly() x WithDebug(recording writer) x {absolute, working directory + relative paths, working directory <tree>/home/u + relative paths} x allocator; request server: {default, WithStartDirectory(\"/\") + relative, WithStartDirectory(\"/home/u\") + absolute, + relative paths} x allocator x handler objects {with / without io.Closer} x {with / without TransferError} (also mixed: only every second object without) x FilePut {with / without OpenFileWriter} x FileList {with / without LstatFileLister} x FileCmd {with / without PosixRenameFileCmder} x {with / without StatVFSFileCmder} (type variants by struct embedding, verified by type assertion when the server is built) x first-Close errors; quick: 13 members of the product (every new option value at least once, allocator / path style rotating with the seed) on every second session, thorough: the whole product, each member on a rotating 1/44 of the sessions (3 of 132) with the connection ended at 16 request indices each. For each session the connection is ended after request index i (quick: first, last and a PRNG subset; thorough: every i) in 5 ways: EOF after the reply, EOF without reading the reply, EOF inside the next packet, transport error, transport error inside the next packet. Each case runs on a fresh server in a child process; non-trivial when at least one request follows INIT; distinct by (server config, session, cut index, mode, offset)"
+	r.Rule = "sessions: INIT + PRNG mix of OPEN (r / w+creat / rw, existing and missing files, handler errors), OPENDIR (ok, missing, not a directory), READ/WRITE/FSTAT/FSETSTAT/READDIR on live handles, CLOSE, repeated CLOSE, CLOSE and other requests on never-issued handles (\"999\", \"\", \"abc\", …), use-after-close, path requests; flavours: small, 32 handles opened first, all closed at the end or left open, \"read-only\" (every modifying request kind and OPEN with every combination of write / create / truncate / append / excl / read flags on existing and new names, the handles used and partly closed) and \"worn handle\" (per handle kind r/w/rw/dir: 32 sequential uses so that every pool worker has served it, 16 pipelined, CLOSE, then 16 sequential + 16 pipelined uses of the closed handle, second CLOSE, one more use, 4 pipelined CLOSEs); request-server flavours where 25 % (PRNG) or 100 % of the reader/writer/rw/lister objects fail their first Close; against os-backed Server (absolute paths / working directory) and RequestServer with counting handlers, allocator on and off (these eight configurations meet every session); option dimensions — os-backed: ReadOnly() x WithDebug(recording writer) x {absolute, working directory + relative paths, working directory <tree>/home/u + relative paths} x allocator; request server: {default, WithStartDirectory(\"/\") + relative, WithStartDirectory(\"/home/u\") + absolute, + relative paths} x allocator x handler objects {with / without io.Closer} x {with / without TransferError} (also mixed: only every second object without) x FilePut {with / without OpenFileWriter} x FileList {with / without LstatFileLister} x FileCmd {with / without PosixRenameFileCmder} x {with / without StatVFSFileCmder} (type variants by struct embedding, verified by type assertion when the server is built) x first-Close errors; quick: 13 members of the product (every new option value at least once, allocator / path style rotating with the seed) on every second session, thorough: the whole product, each member on a rotating 1/44 of the sessions (3 of 132) with the connection ended at 16 request indices each. For each session the connection is ended after request index i (quick: first, last and a PRNG subset; thorough: every i) in 5 ways: EOF after the reply, EOF without reading the reply, EOF inside the next packet, transport error, transport error inside the next packet; and, at request indices where handles are open (quick: 4 per (configuration, session), 2 packets each; thorough: all of them with 1 packet each on the base configurations, 6 with 2 packets each on the members of the option product), in a 6th way: a well-FRAMED packet whose BODY does not decode is the last thing the server receives — derived from a valid request of every kind (INIT, the 19 request types, statvfs / posix-rename / hardlink / unknown extended; handle requests name a live handle) by: nothing after the type byte, the frame ending inside each field (id, every string-length word, offset, length, pflags, attribute flags), inside each string, each string length announcing 1 / 4 / 1000 / 2^32-1 bytes more than the frame holds, an attribute block shorter than its flags (OPEN / SETSTAT / FSETSTAT: refused, then EOF), and type bytes that are no request (0, 2, 21, 99, 101-105, 199, 201, 255) — all combinations dealt out round-robin; every fourth in the same write as the last request, whose reply is not read first. The server has to stop by itself (the stream stays open until it did or 3 s passed), and every release oracle applies as for the other ends. Each case runs on a fresh server in a child process; non-trivial when at least one request follows INIT; distinct by (server config, session, cut index, mode, offset)"
 	base, err := ssMkBase(ssBaseRnd())
 	if err != nil {
 		r.Fail(lib.Failure{Kind: "tie", Key: "tmpdir", What: err.Error()})
@@ -262,11 +263,23 @@ func checkC11(c *lib.Ctx) {
 	modes := []string{"eof", "noreply", "mid", "break", "breakmid"}
 	var jobs []*ssPJob
 	nPairs := 0
+	// session END MODE "badpkt": the last thing the server receives is a well-framed packet whose body does
+	// not decode — every request kind x every way of failing (srvsession_bad.go).  The combinations are dealt
+	// out round-robin (PRNG order) over the (configuration, session, cut) triples, so that a run meets each of
+	// them several times, on both servers; cuts are taken where handles are open (static estimate).
+	badCombos := ssBadCombos()
+	c.Rand.Shuffle(len(badCombos), func(a, b int) { badCombos[a], badCombos[b] = badCombos[b], badCombos[a] })
+	badNext := 0
+	nBadCuts, nBadPer := 4, 2
+	if thorough {
+		nBadCuts = 6 // (the base configurations: every cut with open handles, one packet each)
+	}
 	for pi, p := range progs {
 		for _, st := range p {
 			r.Hist("op/" + st.Op)
 		}
 		n := len(p)
+		liveEst := ssLiveEstimate(p)
 		var allCuts, someCuts []int
 		for i := 0; i < n; i++ {
 			allCuts = append(allCuts, i)
@@ -303,6 +316,27 @@ func checkC11(c *lib.Ctx) {
 					for _, o := range offs[:midOffs] {
 						jobs = append(jobs, &ssPJob{Kind: "c11", Cfg: cfg, Prog: p, PID: pid, End: &ssEnd{After: i, Mode: m, MidOff: o}})
 					}
+				}
+			}
+			// undecodable packets: at cuts with open handles (thorough, base configurations: at every such cut)
+			var bcuts []int
+			for _, i := range c.Rand.Perm(n) {
+				if liveEst[i] > 0 && (len(bcuts) < nBadCuts || (thorough && !cc.sparse)) {
+					bcuts = append(bcuts, i)
+				}
+			}
+			if len(bcuts) == 0 {
+				bcuts = []int{n - 1}
+			}
+			per := nBadPer
+			if thorough && !cc.sparse {
+				per = 1
+			}
+			for _, i := range bcuts {
+				for x := 0; x < per; x++ {
+					bc := badCombos[badNext%len(badCombos)]
+					badNext++
+					jobs = append(jobs, &ssPJob{Kind: "c11", Cfg: cfg, Prog: p, PID: pid, End: &ssEnd{After: i, Mode: "badpkt", Bad: bc.Req, Defect: bc.Defect, Unread: c.Rand.Intn(4) == 0}})
 				}
 			}
 		}
